@@ -141,7 +141,7 @@ def check_model(net, bounds, ruleset, stats, rich=False):
     G = model.genes
     # ---- single reaction deletion
     req = [("none", None, ids), ("ids", ids[:1], ids[:1]), ("objects", [R.get_by_id(i) for i in ids[-2:]], ids[-2:]),
-           ("ids_all_reversed", ids[::-1], ids)]
+           ("ids_all_reversed", ids[::-1], ids), ("empty", [], [])]
     for name, arg, want in req:
         case = mk("single_reaction_deletion", request=name)
         res = run(case, single_reaction_deletion, arg)
@@ -162,7 +162,8 @@ def check_model(net, bounds, ruleset, stats, rich=False):
         dreq = [("none", None, None, ids, ids), ("equal", ids, ids, ids, ids),
                 ("disjoint", ids[:1], ids[1:], ids[:1], ids[1:]),
                 ("overlapping", ids[1:], ids[:2], ids[1:], ids[:2]),
-                ("objects", [R.get_by_id(i) for i in ids[-1:]], ids, ids[-1:], ids)]
+                ("objects", [R.get_by_id(i) for i in ids[-1:]], ids, ids[-1:], ids),
+                ("second_empty", ids, [], ids, []), ("first_empty", [], ids[:2], [], ids[:2])]
         for name, l1, l2, w1, w2 in dreq:
             case = mk("double_reaction_deletion", request=name)
             res = run(case, double_reaction_deletion, l1, l2)
@@ -170,7 +171,8 @@ def check_model(net, bounds, ruleset, stats, rich=False):
                 check_frame(case, res, [frozenset(p) for p in itertools.product(w1, w2)], "reaction", "fba")
     # ---- genes
     if genes:
-        greq = [("none", None, genes), ("ids", genes[:1], genes[:1]), ("objects", [G.get_by_id(g) for g in genes[-2:]], genes[-2:])]
+        greq = [("none", None, genes), ("ids", genes[:1], genes[:1]), ("objects", [G.get_by_id(g) for g in genes[-2:]], genes[-2:]),
+                ("empty", [], [])]
         for name, arg, want in greq:
             case = mk("single_gene_deletion", request=name)
             res = run(case, single_gene_deletion, arg)
